@@ -14,9 +14,19 @@ SetVarsDef == (<<"A">> :> <<"E", "N", "V", "{", "B", "}">>) @@ (<<"B">> :> <<"x"
               \* the environment also holds a variable whose name is not a well-formed NAME (it starts with "."): a
               \* reference spelled with it stays as it is
               @@ (<<".", "A">> :> <<"q">>)
-StartDef == {"A", "B", "U", "_", "~", "1", "b"}
+              \* a name that ends in a digit: the fixed-window roller substitutes its index into the pattern before it
+              \* expands it, so the index can complete a name - set for one index of a window, unset for the others
+              @@ (<<"A", "1">> :> <<"o", "n", "e">>)
+StartDef == {"A", "B", "U", "_", "~", "1", "b", "0", "2"}
 PartDef == StartDef \cup {"."}
-Emit == Done => PrintT(<<"REPLAY", ToJson([input |-> Str(Input), expect |-> Str(out)])>>)
-MetaInit == Init /\ PrintT(<<"REPLAY", ToJson([meta |-> "env", vars |-> [k \in {"A", "B", "~", "A.b", ".A"} |->
-                 CASE k = "A" -> "ENV{B}" [] k = "B" -> "x" [] k = "~" -> "d{}/^" [] k = ".A" -> "q" [] OTHER -> ""], unset |-> <<"U", "1", "1A", "A.", "AA">>])>>)
+\* the input as the pattern of a roller whose window is 0..2, with the index where the input has "1": what the
+\* pattern means at the other two indices (the meaning is per index: substitute, then expand)
+Sub(s, d) == [i \in 1..Len(s) |-> IF s[i] = "1" THEN d ELSE s[i]]
+HasOne == \E i \in 1..Len(Input) : Input[i] = "1"
+Emit == Done => PrintT(<<"REPLAY", ToJson(IF HasOne
+                                          THEN [input |-> Str(Input), expect |-> Str(out), expect0 |-> Str(Expand(Sub(Input, "0"), 1)),
+                                                expect2 |-> Str(Expand(Sub(Input, "2"), 1))]
+                                          ELSE [input |-> Str(Input), expect |-> Str(out)])>>)
+MetaInit == Init /\ PrintT(<<"REPLAY", ToJson([meta |-> "env", vars |-> [k \in {"A", "B", "~", "A.b", ".A", "A1"} |->
+                 CASE k = "A" -> "ENV{B}" [] k = "B" -> "x" [] k = "~" -> "d{}/^" [] k = ".A" -> "q" [] k = "A1" -> "one" [] OTHER -> ""], unset |-> <<"U", "1", "1A", "A.", "AA">>])>>)
 =============================================================================
